@@ -278,6 +278,12 @@ def run_partition(col, dim, orphan="last"):
         b = it.call(B, [fields[0]], dict(mask=pm, skip=skip, value=sym("pm")))
         dofs = {(p, i) for p in range(mesh.npoints) if pm[p] for i in range(dim) if not skip[i]}
         run_case("point mask skip=%s" % (skip,), {"m": b}, [(0, dofs, lambda kk, p, i, o: sym("pm"))])
+        # the documented spelling of the flags is 0 / 1 (integers), with a point mask as well as with coordinate predicates
+        iskip = tuple(int(x) for x in skip)
+        b = it.call(B, [fields[0]], dict(mask=pm, skip=iskip, value=sym("pm")))
+        run_case("point mask skip=%s" % (iskip,), {"m": b}, [(0, dofs, lambda kk, p, i, o: sym("pm"))])
+        b = it.call(B, [fields[0]], dict(fx=0, skip=iskip, value=sym("pc")))
+        run_case("fx=0 skip=%s" % (iskip,), {"m": b}, [(0, {(p, i) for p in selected_points(mesh, dict(fx=Fraction(0))) for i in range(dim) if not skip[i]}, lambda kk, p, i, o: sym("pc"))])
     dm = np.zeros((mesh.npoints, dim), dtype=bool)
     dm[2, 0] = dm[5, dim - 1] = dm[7, 0] = dm[7, dim - 1] = True
     sel = sorted({(2, 0), (5, dim - 1), (7, 0), (7, dim - 1)})
@@ -289,6 +295,11 @@ def run_partition(col, dim, orphan="last"):
     arr2 = symarray("a2", (len(spts), dim))
     b = it.call(B, [fields[0]], dict(fx=0, value=arr2))
     run_case("array value (points, dim)", {"m": b}, [(0, {(p, i) for p in spts for i in range(dim)}, lambda kk, p, i, o: arr2[spts.index(p), i])])
+    # the same values held in column-major memory (e.g. the transpose of a (dim, points) product): the logical order counts, not the layout
+    b = it.call(B, [fields[0]], dict(fx=0, value=np.asfortranarray(arr2)))
+    run_case("array value (points, dim), column-major memory", {"m": b}, [(0, {(p, i) for p in spts for i in range(dim)}, lambda kk, p, i, o: arr2[spts.index(p), i])])
+    b = it.call(B, [fields[0]], dict(fx=0, value=np.ascontiguousarray(arr2.T).T))
+    run_case("array value (points, dim), transposed view", {"m": b}, [(0, {(p, i) for p in spts for i in range(dim)}, lambda kk, p, i, o: arr2[spts.index(p), i])])
     # one row of components broadcast over the selected points
     row = symarray("a3", (dim,))
     b = it.call(B, [fields[0]], dict(fx=0, value=row))
